@@ -212,19 +212,28 @@ class Gen:
             s += " " + self.pick(attrs)
         return s
 
+    def index_options(self):
+        """any subset of the index options in any order (the parser accepts one order; the others must be rejected, not mangled)"""
+        opts = ["USING BTREE", self.pick(["KEY_BLOCK_SIZE = 4", "KEY_BLOCK_SIZE=8"]), self.pick(["COMMENT 'pk'", "COMMENT 'it''s'"])]
+        k = self.pick([0, 0, 1, 1, 2, 2, 3])
+        chosen = self.r.sample(opts, k)
+        if self.r.random() < 0.7:
+            chosen.sort(key=lambda o: 0 if o.startswith("USING") else (1 if o.startswith("COMMENT") else 2))   # the order the printers emit
+        return "".join(" " + o for o in chosen)
+
     def create_table(self):
         if self.r.random() < 0.15:
             return "CREATE TABLE %s AS %s" % (self.pick(TABLES), self.select(1))
         s = self.kw("CREATE") + " " + self.kw("TABLE") + " " + ("IF NOT EXISTS " if self.r.random() < 0.3 else "") + self.pick(TABLES) + " ("
         items = [self.column_def() for _ in range(self.r.randint(1, 4))]
         if self.r.random() < 0.4:
-            items.append("PRIMARY KEY (id)" + self.pick(["", " USING BTREE", " COMMENT 'pk'", " KEY_BLOCK_SIZE = 4"]))
+            items.append("PRIMARY KEY (id)" + self.index_options())
         if self.r.random() < 0.25:
-            items.append("UNIQUE KEY uk (c1, `name`(10))")
+            items.append("UNIQUE KEY uk (c1, `name`(10))" + self.index_options())
         if self.r.random() < 0.25:
-            items.append("KEY idx_a (c1) USING BTREE")
+            items.append("KEY idx_a (c1)" + self.index_options())
         if self.r.random() < 0.1:
-            items.append("FULLTEXT KEY ft (`name`)")
+            items.append("FULLTEXT KEY ft (`name`)" + self.index_options())
         if self.r.random() < 0.15:
             items.append("CONSTRAINT fk1 FOREIGN KEY (c1) REFERENCES other (id)" + self.pick(["", " ON DELETE CASCADE", " ON DELETE SET NULL ON UPDATE NO ACTION",
                                                                                                 " ON UPDATE RESTRICT"]))
